@@ -459,7 +459,7 @@ def make_prec(ctx, N, site, shapes=True):
         k = rand_k(rng, site)
         # edge/corner formulas are ill-conditioned in doubles next to their limit (see geo_tol): rounding noise can
         # exceed the (vanishing) factors there; that region is covered by check_geometry with scaled tolerances
-        lim = 1 - 1e-3 if site in ('edge', 'corner') else 1 - 1e-9
+        lim = 1 - 1e-3 if site in ('edge', 'corner') else 1 - 1e-6     # boundary: 2 - 3k + k^3 cancels to 0.0 below 1 - k ~ 1e-8
         if k >= KMAX[site] * lim:
             k = KMAX[site] * rng.uniform(0.9, 0.999)
     gbE = 2 * k * gamma if KMAX[site] < math.inf else rng.choice([0.3, 0.5, 0.0])
@@ -1102,16 +1102,25 @@ def corr(ctx, oracle_only=False, scale=1):
     res.monitored = list(MONITORED)
     batch = Batch()
     q = lambda a, b: int(ctx.n(a, b) * scale)
-    check_geometry(ctx, res, batch, N, q(120, 4000))
-    check_grid(ctx, res, N, q(2000, 200000))
-    check_barrier(ctx, res, batch, N, R, q(60, 3000), 8)
-    check_chain(ctx, res, batch, N, R, q(40, 2000), 6)
-    check_tauni(ctx, res, batch, R, q(150, 6000))
-    check_ops(ctx, res, batch, N, q(400, 20000))
-    check_sites(ctx, res, batch, N, R, q(200, 8000))
+    import time
+    timing = {}
+
+    def timed(name, f, *a):
+        t = time.time()
+        f(*a)
+        timing[name] = round(time.time() - t, 2)
+    timed('geometry', check_geometry, ctx, res, batch, N, q(120, 4000))
+    timed('grid', check_grid, ctx, res, N, q(2000, 200000))
+    timed('barrier', check_barrier, ctx, res, batch, N, R, q(60, 3000), 8)
+    timed('chain', check_chain, ctx, res, batch, N, R, q(40, 2000), 6)
+    timed('tauni', check_tauni, ctx, res, batch, R, q(150, 6000))
+    timed('ops', check_ops, ctx, res, batch, N, q(400, 20000))
+    timed('sites', check_sites, ctx, res, batch, N, R, q(200, 8000))
     if not os.environ.get('VERIF_C14_NORUN'):
-        check_run(ctx, res, batch, R, run_configs(ctx))
-    batch.run(res, ctx.driver_ok and not oracle_only)
+        timed('run', check_run, ctx, res, batch, R, run_configs(ctx))
+    timed('driver', batch.run, res, ctx.driver_ok and not oracle_only)
+    res.extra['section_seconds'] = timing
+    res.extra['driver_lines'] = len(batch.lines)
     return res
 
 
